@@ -263,7 +263,7 @@ pub struct CtlWire {
     pub ops: Vec<WOp>,
 }
 
-#[derive(Clone, PartialEq, Eq, Hash)]
+#[derive(Clone, PartialEq, Eq, Hash, Debug)]
 pub struct PairState {
     wire: VirtualSignBus<'static>,
     direct: VirtualSignBus<'static>,
@@ -359,7 +359,7 @@ pub struct MsgWire {
     pub automatic: bool,
 }
 
-#[derive(Clone, PartialEq, Eq, Hash)]
+#[derive(Clone, PartialEq, Eq, Hash, Debug)]
 pub struct MsgState {
     wire: VirtualSignBus<'static>,
     direct: VirtualSignBus<'static>,
@@ -716,6 +716,18 @@ pub fn run(ctx: &Ctx) -> Report {
     rep.transitions += bridge_runs;
     let nt = rep.absorb(all);
     let _ = nt;
+    let mut xs = vec![];
+    if rep.violations.is_empty() {
+        let sys = MsgWire { alpha: msg_alphabet(), automatic: false };
+        let name = sys.name();
+        let sr = crate::xcheck::stateright_unique_states(sys);
+        let mine = runs.iter().find(|r| r["run"] == json!(name)).and_then(|r| r["states"].as_u64()).unwrap_or(0);
+        xs.push(json!({"run": name, "stateright_unique_states": sr, "own_explorer_states": mine, "equal": sr == mine}));
+        if sr != mine {
+            rep.machinery_errors.push(format!("E5 cross-check: stateright found {} unique states for {}, the own explorer {}", sr, name, mine));
+        }
+    }
+    rep.set("stateright_cross_check", Value::Array(xs));
     rep.set("bfs_runs", Value::Array(runs));
     rep.set("bridge_fault_runs", json!(bridge_runs));
     let bad = !rep.violations.is_empty();
